@@ -104,6 +104,22 @@ let handle line =
        | [t] -> let (acc, r) = if _fl = "2" then output_root_faulty_kth c t (nat_of_int (int_of_string b))
                                else output_root_faulty c t (nat_of_int (int_of_string b)) in res_str r ^ " " ^ hex_of_str acc
        | _ -> "badcase")
+  | ["cli"; cmd; usage; fmt; missing; dry; exts; target; strict; budget; pre; doc] ->
+      let iv = { i_cmd = (match cmd with "output" -> CmdOutput | "mkdir" -> CmdMkdir | "verify" -> CmdVerify | _ -> CmdTemplate);
+                 i_usage_error = (usage = "1");
+                 i_format = (match fmt with "-" -> None | "json" -> Some (Some EncJSON) | "yaml" -> Some (Some EncYAML)
+                                           | "toml" -> Some (Some EncTOML) | _ -> Some None);
+                 i_input = (if missing = "1" then InMissingFile else InGiven);
+                 i_dry = (dry = "1"); i_exts = (if exts = "-" then [] else List.map str_of_hex (String.split_on_char '+' exts));
+                 i_target = str_of_hex target; i_strict = (strict = "1") } in
+      let fs0 = List.map (fun e -> match String.split_on_char ':' e with
+              | ["d"; p] -> (str_of_hex p, KDir) | ["f"; p] -> (str_of_hex p, KFile false) | ["e"; p] -> (str_of_hex p, KFile true)
+              | _ -> failwith "fsentry") (if pre = "-" then [] else String.split_on_char '+' pre) in
+      let b = if budget = "-" then None else Some (nat_of_int (int_of_string budget)) in
+      let ((out, fs1), code) = run_cli iv (str_of_hex doc) fs0 b in
+      let ents = List.sort compare (List.map (fun (p, k) -> match k with
+              | KDir -> "d:" ^ hex_of_str p | KFile true -> "e:" ^ hex_of_str p | KFile false -> "f:" ^ hex_of_str p) fs1) in
+      Printf.sprintf "%d %s %s" (int_of_nat code) (hex_of_str out) (match ents with [] -> "-" | _ -> String.concat "+" ents)
   | ["walk"; ld; li; md; mi; fail; input] ->
       let c = { c_bf = bf_of ld li md mi; c_enc = EncDefault; c_dry = false; c_exts = []; c_noiter = false } in
       let k = if fail = "-" then -1 else int_of_string fail in
